@@ -83,3 +83,6 @@ pub use self::reader::{ReaderError, ReaderErrorKind, TokenReader, TokenReaderBui
 pub use self::resolver::{BasicTokenResolver, FailedResolveStrategy, TokenResolver};
 pub use self::rgb::*;
 pub use self::tape::{BinaryTape, BinaryTapeParser, BinaryToken};
+#[cfg(jomini_verif)]
+#[doc(hidden)]
+pub use self::tape::verif_hooks as tape_verif_hooks;
